@@ -297,7 +297,10 @@ class Inliner:
 
         if is_gen:
             if isinstance(st, ast.For) and is_c(st.iter) and not st.orelse:
-                return self._inline_generator(st, caller, h)
+                try:
+                    return self._inline_generator(st, caller, h)
+                except _Abort:
+                    return None
             return None
         if isinstance(st, ast.Expr) and is_c(st.value):
             return self._expand(st.value, caller, h, lambda e, r: [])
@@ -438,54 +441,146 @@ class Inliner:
         return res or [ast.Pass()]
 
     def _inline_generator(self, loop: ast.For, caller, h) -> Optional[List[ast.stmt]]:
-        ys = [n for n in ast.walk(h) if isinstance(n, ast.Yield)]
-        if len(ys) != 1 or _has(_body_wo_doc(h), ast.Return):
-            return None
+        """`for T in G(args): BODY` with G a generator of this module: G's body with every `yield e` replaced by `T = e; BODY`.
+        One yield: BODY may `continue` if the yield sits in a loop of G. Several yields: BODY's `if c: ...; continue` guards are
+        turned into if/else first and no other continue/break may remain; constant components of the yielded tuples (event
+        flags such as `yield node, True`) are propagated into each copy of BODY and the tests on them folded. A bare `return`
+        directly inside G's outermost loop becomes `break`."""
         pre, body = self._bind(loop.iter, caller, h)
-        ystmt = [s for b in [body] for s in ast.walk(ast.Module(body=b, type_ignores=[])) if isinstance(s, ast.Expr) and isinstance(s.value, ast.Yield)]
-        if len(ystmt) != 1:
+        mod = ast.Module(body=body, type_ignores=[])
+        ystmts = [s for s in ast.walk(mod) if isinstance(s, ast.Expr) and isinstance(s.value, ast.Yield)]
+        n_y = sum(1 for n in ast.walk(mod) if isinstance(n, (ast.Yield, ast.YieldFrom)))
+        if not ystmts or n_y != len(ystmts):
             return None
-        in_loop = False
+        # returns of the generator
+        rets = [n for n in ast.walk(mod) if isinstance(n, ast.Return)]
+        if any(r.value is not None for r in rets):
+            return None
+        if rets:
+            ok = [True]
+
+            def conv(stmts, depth):
+                for i, st in enumerate(stmts):
+                    if isinstance(st, ast.Return):
+                        if depth == 1:
+                            stmts[i] = ast.copy_location(ast.Break(), st)
+                        elif depth == 0 and st is body[-1]:
+                            stmts[i] = ast.copy_location(ast.Pass(), st)
+                        else:
+                            ok[0] = False
+                        continue
+                    is_loop = isinstance(st, (ast.For, ast.While))
+                    for fld in ("body", "orelse", "finalbody"):
+                        bb = getattr(st, fld, None)
+                        if isinstance(bb, list) and bb and isinstance(bb[0], ast.stmt):
+                            conv(bb, depth + 1 if (is_loop and fld == "body") else depth)
+                    if isinstance(st, ast.Try):
+                        for hd in st.handlers:
+                            conv(hd.body, depth)
+            conv(body, 0)
+            if not ok[0]:
+                return None
+        in_loop: Dict[int, bool] = {}
 
         def find(stmts, depth_loop):
-            nonlocal in_loop
-            for s in stmts:
-                if s is ystmt[0]:
-                    in_loop = depth_loop
-                    return True
+            for s_ in stmts:
+                if any(s_ is y for y in ystmts):
+                    in_loop[id(s_)] = depth_loop
                 for fld in ("body", "orelse", "finalbody"):
-                    b = getattr(s, fld, None)
-                    if isinstance(b, list) and b and isinstance(b[0], ast.stmt):
-                        if find(b, depth_loop or isinstance(s, (ast.For, ast.While))):
-                            return True
-                if isinstance(s, ast.Try):
-                    for hd in s.handlers:
-                        if find(hd.body, depth_loop):
-                            return True
-            return False
-
+                    bb = getattr(s_, fld, None)
+                    if isinstance(bb, list) and bb and isinstance(bb[0], ast.stmt):
+                        find(bb, depth_loop or (isinstance(s_, (ast.For, ast.While)) and fld == "body"))
+                if isinstance(s_, ast.Try):
+                    for hd in s_.handlers:
+                        find(hd.body, depth_loop)
         find(body, False)
         lb = loop.body
-        if _has(lb, ast.Break) or (not in_loop and _has(lb, ast.Continue)):
-            return None
-        val = ystmt[0].value.value if ystmt[0].value.value is not None else ast.Constant(None)
-        new = [ast.Assign(targets=[copy.deepcopy(loop.target)], value=val)] + lb
+        if len(ystmts) == 1:
+            if _has(lb, ast.Break) or (not in_loop.get(id(ystmts[0])) and _has(lb, ast.Continue)):
+                return None
+        else:
+            lb = _uncontinue(copy.deepcopy(lb))
+            if lb is None or _has(lb, (ast.Break, ast.Continue)):
+                return None
+        repl: Dict[int, List[ast.stmt]] = {}
+        for y in ystmts:
+            val = y.value.value if y.value.value is not None else ast.Constant(None)
+            bcopy = copy.deepcopy(lb) if len(ystmts) > 1 else lb
+            tgt = copy.deepcopy(loop.target)
+            consts: Dict[str, ast.Constant] = {}
+            if isinstance(tgt, ast.Tuple) and isinstance(val, ast.Tuple) and len(tgt.elts) == len(val.elts) and len(ystmts) > 1:
+                for t, v in zip(tgt.elts, val.elts):
+                    if isinstance(t, ast.Name) and isinstance(v, ast.Constant):
+                        consts[t.id] = v
+            if consts and not any(isinstance(x, ast.Name) and x.id in consts and isinstance(x.ctx, ast.Store) for s_ in bcopy for x in ast.walk(s_)):
+                bcopy = _fold_consts(bcopy, consts)
+            for t in ast.walk(tgt):
+                if isinstance(t, (ast.Name, ast.Tuple, ast.List)):
+                    t.ctx = ast.Store()
+            repl[id(y)] = [ast.Assign(targets=[tgt], value=val)] + (bcopy or [ast.Pass()])
 
         class R(ast.NodeTransformer):
             def generic_visit(s, node):
                 super().generic_visit(node)
                 for fld in ("body", "orelse", "finalbody"):
-                    b = getattr(node, fld, None)
-                    if isinstance(b, list) and any(x is ystmt[0] for x in b):
-                        j = [k for k, x in enumerate(b) if x is ystmt[0]][0]
-                        b[j:j + 1] = new
+                    bb = getattr(node, fld, None)
+                    if isinstance(bb, list):
+                        out = []
+                        for x in bb:
+                            out += repl.get(id(x), [x])
+                        if len(out) != len(bb) or any(a is not c for a, c in zip(out, bb)):
+                            bb[:] = out
                 return node
-        m = ast.Module(body=body, type_ignores=[])
-        R().visit(m)
-        for t in ast.walk(loop.target):
-            if isinstance(t, ast.Name):
-                t.ctx = ast.Store()
-        return pre + m.body
+        R().visit(mod)
+        return pre + mod.body
+
+
+def _uncontinue(stmts: List[ast.stmt]) -> Optional[List[ast.stmt]]:
+    """`if c: A; continue` followed by REST  ==  `if c: A else: REST` (so that the sequence can be pasted where a `continue`
+    would mean something else)"""
+    out: List[ast.stmt] = []
+    for i, st in enumerate(stmts):
+        if isinstance(st, ast.If) and not st.orelse and st.body and isinstance(st.body[-1], ast.Continue):
+            rest = _uncontinue(stmts[i + 1:])
+            if rest is None:
+                return None
+            new = ast.If(test=st.test, body=(_uncontinue(st.body[:-1]) or [ast.Pass()]), orelse=rest)
+            out.append(ast.copy_location(new, st))
+            return out
+        if isinstance(st, ast.Continue):
+            return out  # a trailing continue is a no-op
+        out.append(st)
+    return out
+
+
+def _fold_consts(stmts: List[ast.stmt], consts: Dict[str, ast.Constant]) -> List[ast.stmt]:
+    """substitute names that are known constants and fold `if <constant>:` / `not <constant>`"""
+    class S(ast.NodeTransformer):
+        def visit_Name(self, n):
+            if n.id in consts and isinstance(n.ctx, ast.Load):
+                return ast.copy_location(copy.deepcopy(consts[n.id]), n)
+            return n
+
+        def visit_UnaryOp(self, n):
+            self.generic_visit(n)
+            if isinstance(n.op, ast.Not) and isinstance(n.operand, ast.Constant):
+                return ast.copy_location(ast.Constant(value=not n.operand.value), n)
+            return n
+
+    def fold(lst):
+        out = []
+        for st in lst:
+            st = S().visit(st)
+            for fld in ("body", "orelse", "finalbody"):
+                bb = getattr(st, fld, None)
+                if isinstance(bb, list) and bb and isinstance(bb[0], ast.stmt):
+                    setattr(st, fld, fold(bb) or ([ast.Pass()] if fld == "body" else []))
+            if isinstance(st, ast.If) and isinstance(st.test, ast.Constant):
+                out += (st.body if st.test.value else st.orelse)
+                continue
+            out.append(st)
+        return [x for x in out if not isinstance(x, ast.Pass)] or []
+    return fold(stmts)
 
 
 def renumber(fn: ast.AST) -> None:
